@@ -8,7 +8,7 @@ import circ_util as CU
 
 RULE = ('gate programs (generator gates, forward-map gates, backward-map gates, named gates, CNOT in both orientations; '
         'ascending qubit tuples) of length <=30 on N<=6 qubits, biased to overlapping and sliding gates; configurations '
-        '{uncompiled, layer-compiled, circuit-compiled} x {CliffordCircuit, Circuit} x {original, copy, composed halves}; inputs: '
+        '{uncompiled, layer-compiled, circuit-compiled} x {CliffordCircuit, Circuit} x {original, copy, copy extended with further gates, composed halves}; inputs: '
         'Pauli lists with all phases, polynomials, stabilizer states. non-trivial = program with at least two overlapping gates; '
         'distinct = distinct (program, configuration).')
 ASSUMPTIONS = []
@@ -27,12 +27,13 @@ def run(ctx):
     CI, pc = impl.CI, impl.pc
     rng = ctx.rng
     cid = 0
-    for it in range(ctx.budget(250, 3000)):
-        N = rng.choice([1, 2, 3, 3, 4, 5, 6])
-        length = rng.choice([1, 2, 3, 5, 8, 12, 20, 30])
+    def one(force=None):
+        nonlocal cid
+        N = rng.choice([1, 2, 3, 3, 4, 5, 6]) if force is None else rng.choice([3, 4, 4, 5])
+        length = rng.choice([1, 2, 3, 5, 8, 12, 20, 30]) if force is None else rng.choice([5, 8, 12, 16])
         prog = CU.rand_program(rng, N, length)
-        klass = rng.choice(['CliffordCircuit', 'Circuit'])
-        conf = rng.choice(['plain', 'plain', 'layers', 'compiled', 'copy', 'copy-compiled', 'composed', 'composed-compiled', 'recompiled', 'recompiled'])
+        klass = rng.choice(['CliffordCircuit', 'Circuit']) if force is None else force[0]
+        conf = rng.choice(['plain', 'plain', 'layers', 'compiled', 'copy', 'copy-compiled', 'composed', 'composed-compiled', 'recompiled', 'recompiled', 'copy-extended', 'copy-extended', 'copy-extended-compiled']) if force is None else force[1]
         ctx.count('class=' + klass); ctx.count('conf=' + conf); ctx.count('N=%d' % N)
         Ps = [G.rand_op(rng, N) for _ in range(4)] + G.id_map_ops(N)
         rows, r = G.rand_tableau(rng, N)
@@ -52,6 +53,17 @@ def run(ctx):
                     c2.take(CU.impl_gate(impl, d)); CU.model_take(ctx.drv, a + 'b', d)
                 circ = c1.compose(c2)
                 ctx.drv.ask('circ %s compose %sb' % (a, a))
+            elif conf.startswith('copy-extended') and klass == 'CliffordCircuit':
+                # copy a circuit, then keep building on the copy (the original goes its own way): the copy is a circuit like any other
+                c0 = mk()
+                k = rng.randrange(0, length + 1)
+                for d in prog[:k]:
+                    c0.take(CU.impl_gate(impl, d)); CU.model_take(ctx.drv, a, d)
+                circ = c0.copy()
+                ctx.drv.ask('circ %s copy %sk' % (a, a)); a = a + 'k'
+                c0.take(CI.H(0))
+                for d in prog[k:]:
+                    circ.take(CU.impl_gate(impl, d)); CU.model_take(ctx.drv, a, d)
             elif conf == 'recompiled':
                 # compile (whole circuit or layer by layer), keep adding gates, compile again: the second compilation must see the new gates
                 circ = mk()
@@ -76,7 +88,7 @@ def run(ctx):
             ctx.count('corr:layers')
             if ml.replace('Gc', 'G') != lay.replace('Gc', 'G'):
                 ctx.mismatch('take', 'program of %d gates' % length, ml, lay, dict(rep=rep))
-            if 'copy' in conf and klass == 'CliffordCircuit':
+            if conf in ('copy', 'copy-compiled') and klass == 'CliffordCircuit':
                 orig = circ
                 circ = circ.copy()
                 ctx.drv.ask('circ %s copy %sk' % (a, a)); a = a + 'k'
@@ -127,3 +139,15 @@ def run(ctx):
         except Exception as e:
             import traceback
             ctx.fail('%s' % klass, 'implementation raised %r' % e, dict(rep, tb=traceback.format_exc()[-600:]))
+
+    for it in range(ctx.budget(250, 3000)):
+        one()
+    # a broken correspondence is not yet a violation: search the configurations that disagreed for an input on which the
+    # property itself fails (forward differs from the ordered product)
+    if ctx.mismatches and not ctx.failures:
+        forces = sorted({(m['rep']['klass'], m['rep']['conf']) for m in ctx.mismatches if 'rep' in m})
+        n_search = 0
+        while forces and not ctx.failures and n_search < ctx.budget(1500, 6000):
+            one(forces[n_search % len(forces)])
+            n_search += 1
+        ctx.count('failing-input-search', n_search)
